@@ -1091,21 +1091,39 @@ class FreshParser(Contract):
     key = 'C05.fresh-parser'
     target = 'mido.parser:Parser.__init__'
     properties = ('C04', 'C05', 'C06', 'C18', 'C19')
-    configs = ({'cls': 'Parser', 'data': None}, {'cls': 'Tokenizer', 'data': None}, {'cls': 'Parser', 'data': 'clock'}, {'cls': 'Tokenizer', 'data': 'clock'})
+    configs = ({'cls': 'Parser', 'data': None}, {'cls': 'Tokenizer', 'data': None}, {'cls': 'Parser', 'data': 'clock'}, {'cls': 'Tokenizer', 'data': 'clock'},
+               {'cls': 'ParserQueue', 'data': None})
     raises = {}
     symbolic_only = True
 
     def callee(self, h, cfg):
         return _NEW.get(h)
 
+    def setup(self, h, cfg, ip):
+        import queue
+        import threading
+        ip.models.table[queue.Queue] = lambda ipx, *a, **k: queue.Queue(*a, **k)          # concrete arguments only
+        ip.models.table[threading.RLock] = lambda ipx, *a, **k: threading.RLock()
+
     def inputs(self, h, cfg):
         import mido.parser as P
         import mido.tokenizer as T
-        cls = P.Parser if cfg['cls'] == 'Parser' else T.Tokenizer
+        import mido.backends._parser_queue as PQ
+        cls = {'Parser': P.Parser, 'Tokenizer': T.Tokenizer, 'ParserQueue': PQ.ParserQueue}[cfg['cls']]
         return [cls, None if cfg['data'] is None else [0xF8]], {}
 
     def ensures(self, h, cfg, a, r):
         ra = attrs_of(r)
+        if cfg['cls'] == 'ParserQueue':
+            import queue
+            import threading
+            import mido.parser as P
+            q, par, lk = ra.get('_queue'), ra.get('_parser'), ra.get('_parser_lock')
+            pa = attrs_of(par) if cls_of(par) is P.Parser else {}
+            return {'thread-safe-unbounded-queue': isinstance(q, queue.Queue) and q.maxsize == 0 and q.qsize() == 0,
+                    'own-fresh-parser-with-empty-unbounded-queue': cls_of(par) is P.Parser and isinstance(pa.get('messages'), collections.deque)
+                    and pa['messages'].maxlen is None and len(pa['messages']) == 0,
+                    're-entrant-parser-lock': type(lk) is type(threading.RLock())}
         ta = attrs_of(ra['_tok']) if cfg['cls'] == 'Parser' else ra
         tq = ta.get('_messages')
         out = {'tokenizer-idle': ta.get('_status') == 0 and list(ta.get('_bytes', [None])) == [],
